@@ -1,0 +1,123 @@
+//go:build verif
+
+package watchersyncer
+
+import (
+	"context"
+	"math"
+	"sort"
+	"time"
+
+	"github.com/projectcalico/calico/libcalico-go/lib/backend/api"
+)
+
+// Verification-only re-exports (compiled only with -tags verif): let an
+// external harness run one watcherCache step and the syncer's result processing
+// synchronously, without starting any goroutine.
+
+// VerifWS wraps a watcherSyncer created by New/NewMultiClient.
+type VerifWS struct{ ws *watcherSyncer }
+
+// VerifResult describes one value a cache put on the results channel.
+type VerifResult struct {
+	CacheID int
+	Kind    string // "status", "updates", "backend-error", "error"
+	Status  api.SyncStatus
+	Updates []api.Update
+	raw     resultWithID
+}
+
+// VerifWrap type-asserts the syncer and sends the initial status exactly as run() does.
+func VerifWrap(s api.Syncer) *VerifWS {
+	ws := s.(*watcherSyncer)
+	ws.sendStatusUpdate(api.WaitForDatastore)
+	return &VerifWS{ws: ws}
+}
+
+func (v *VerifWS) drain() []VerifResult {
+	var out []VerifResult
+	for {
+		select {
+		case r := <-v.ws.results:
+			vr := VerifResult{CacheID: r.cacheID, raw: r}
+			switch x := r.value.(type) {
+			case api.SyncStatus:
+				vr.Kind, vr.Status = "status", x
+			case []api.Update:
+				vr.Kind, vr.Updates = "updates", x
+			case errorSyncBackendError:
+				vr.Kind = "backend-error"
+			case error:
+				vr.Kind = "error"
+			default:
+				vr.Kind = "unknown"
+			}
+			out = append(out, vr)
+		default:
+			return out
+		}
+	}
+}
+
+// SetRetryElapsed makes `time.Since(lastSuccessfulConnTime) > watchRetryTimeout` true or false from now on.
+func (v *VerifWS) SetRetryElapsed(cache int, elapsed bool) {
+	if elapsed {
+		v.ws.watcherCaches[cache].watchRetryTimeout = -time.Hour
+	} else {
+		v.ws.watcherCaches[cache].watchRetryTimeout = time.Duration(math.MaxInt64)
+	}
+}
+
+// Call runs one resyncAndLoopReadingFromWatcher on the caller's goroutine and returns what it emitted.
+func (v *VerifWS) Call(cache int) []VerifResult {
+	v.ws.watcherCaches[cache].resyncAndLoopReadingFromWatcher(context.Background())
+	return v.drain()
+}
+
+// StopCache runs what watcherCache.run defers at shutdown.
+func (v *VerifWS) StopCache(cache int) []VerifResult {
+	v.ws.watcherCaches[cache].sendDeletionsForAllResources()
+	return v.drain()
+}
+
+// Process feeds results through processResult as one consolidation batch, then sendUpdates.
+func (v *VerifWS) Process(rs []VerifResult) {
+	var updates []api.Update
+	for _, r := range rs {
+		updates = v.ws.processResult(updates, r.raw)
+	}
+	v.ws.sendUpdates(updates)
+}
+
+// VerifCacheState is a copy of a cache's internal state.
+type VerifCacheState struct {
+	Resources, OldResources map[string]string // key string -> revision
+	OldIsNil                bool
+	Revision                string
+	ErrorCount              int
+	Status                  api.SyncStatus
+	CRDInstalled            bool
+	ListPolling             bool
+	WatchPolling            bool
+	Connected               bool
+	Keys                    []string
+}
+
+func (v *VerifWS) Dump(cache int) VerifCacheState {
+	wc := v.ws.watcherCaches[cache]
+	s := VerifCacheState{Resources: map[string]string{}, OldResources: map[string]string{}, OldIsNil: wc.oldResources == nil,
+		Revision: wc.currentWatchRevision, ErrorCount: wc.errorCountAtCurrentRev, Status: wc.status, CRDInstalled: wc.crdInstalled,
+		ListPolling: wc.listTriggeredPolling, WatchPolling: wc.watchTriggeredPolling, Connected: wc.connected}
+	for k, e := range wc.resources {
+		s.Resources[k] = e.revision
+		s.Keys = append(s.Keys, k)
+	}
+	for k, e := range wc.oldResources {
+		s.OldResources[k] = e.revision
+	}
+	sort.Strings(s.Keys)
+	return s
+}
+
+// SyncerStatus is the syncer's own aggregated status.
+func (v *VerifWS) SyncerStatus() api.SyncStatus { return v.ws.status }
